@@ -63,7 +63,7 @@ CLASS = {
     'root-undeclared': ['ElementNotDefined', 'GrammarNotFound', 'ElementNotValidForContent', 'NillNotAllowed', 'BadXsiType'],
 }
 
-FEATSETS = [frozenset(), frozenset(), frozenset(['groups']), frozenset(['subst', 'groups']), frozenset(['wild']), frozenset(['wild', 'subst', 'groups', 'anyattr']),
+FEATSETS = [frozenset(), frozenset(), frozenset(['groups']), frozenset(['subst', 'groups']), frozenset(['subst']), frozenset(['wild']), frozenset(['wild', 'subst', 'groups', 'anyattr']),
             frozenset(['nil', 'valueconstraint']), frozenset(['wild', 'subst', 'groups', 'nil', 'valueconstraint', 'anyattr'])]
 
 # ---- known findings: every exclusion is switchable (VERIF_C08_EXCLUSIONS_OFF=id,id,... or 'all') ------------------------------
@@ -356,7 +356,10 @@ def check_cm(ctx, ex, c, tier):
                'enumL:%d' % L, 'witness:%s' % ('re' if have_wit else 'none')]
     if isinstance(root.typ.content, xm.Particle) and root.typ.content.k == 'all': labels0.append('model:all')
     if any(l.k == 'any' for l in orc.tm(root.typ, s.tns).leaves): labels0.append('model:wildcard')
-    if has_subst(s): labels0.append('model:subst')
+    if has_subst(s):
+        labels0.append('model:subst')
+        if any(not isinstance(e.typ, str) and e.typ.base is not None for e in s.elements if e.subst is not None): labels0.append('model:subst-derived-type')
+        if any(not xm.substitution_ok(e.subst, e) for e in s.elements if e.subst is not None): labels0.append('model:subst-blocked-member')
     if root.typ.mixed: labels0.append('model:mixed')
     if model_nt: labels0.append('model:numeric-range-or-all-or-wild')
     first = True
